@@ -15,12 +15,16 @@ func init() {
 		Rule: "one case = (instant) for the capture-time mapping, (instant, offset) for the clock offset, (send instant, delay) for Estimate; instants = era x second offset x sub-second grid; non-trivial = sub-second part or delay non-zero",
 		Assumptions: []string{
 			"the time domain is a continuum: the check is exhaustive over a stated boundary grid (DESIGN.md 5 C18), instants between grid points are outside the bound",
+			"clock-offset magnitudes: a 16-value boundary list, plus sweeps of every whole second 0..8191 s, every whole minute up to 2^31 s (thorough; quick: every 64th minute and the 64 around each power of two), and a logarithmic grid m x 2^k ns for k = 0..60 and 16 mantissas m in [1,2), each with sub-second additions {0, 1, 465, 499999999} ns and both signs",
+			"instant sweeps: capture time at every whole hour 1970..2036 (+0 / +1 ns / +999999999 ns); Estimate for every send second within 128 s of each era start (sub-second 0 and 0.5 s) x every delay that is a multiple of 125 ms below 64 s",
 			"q = 2^-18 s = 3814.697 ns; Estimate may return any instant in [send - q - 1 ns, send]",
 		},
 		Scenarios: []mc.Scenario{
 			{Name: "capture-time-roundtrip", Tiers: "qt", ShardDepth: 2, Run: c18Capture},
 			{Name: "clock-offset-roundtrip", Tiers: "qt", ShardDepth: 2, Run: c18Offset},
 			{Name: "estimate-send-time", Tiers: "qt", ShardDepth: 2, Run: c18Estimate},
+			{Name: "clock-offset-magnitude-sweeps", Tiers: "qt", ShardDepth: 2, Run: c18OffsetSweep},
+			{Name: "instant-and-delay-sweeps", Tiers: "qt", ShardDepth: 2, Run: c18InstantSweep},
 		},
 	})
 }
@@ -182,4 +186,122 @@ func c18Estimate(c *mc.Ctx) {
 	}
 	wrapped := (send.Unix()+0x83AA7E80)>>6 != (recv.Unix()+0x83AA7E80)>>6
 	c.Outcome(fmt.Sprintf("wrap=%v", wrapped))
+}
+
+// c18CheckOffset recovers one offset; reports the first failing one of a sweep.
+func c18CheckOffset(c *mc.Ctx, era time.Time, off time.Duration) {
+	if off >= (1<<31)*time.Second || off <= -(1<<31)*time.Second {
+		return
+	}
+	e := rtp.NewAbsCaptureTimeExtensionWithCaptureClockOffset(era, off)
+	got := e.EstimatedCaptureClockOffsetDuration()
+	if got == nil {
+		c.Failf("clock-offset", "offset %v: nil duration", off)
+	}
+	if absDur(*got-off) > time.Nanosecond || (off > 1 && *got <= 0) || (off < -1 && *got >= 0) {
+		c.Failf("clock-offset", "offset %v (%d ns) recovered as %v (%d ns)", off, int64(off), *got, int64(*got))
+	}
+}
+
+func c18OffsetSweep(c *mc.Ctx) {
+	era := c18Eras[1+c.Pick(2)]
+	kind := c.Pick(3)
+	var mags []time.Duration
+	switch kind {
+	case 0: // whole seconds, blocks of 512
+		blk := c.Pick(16)
+		for s := blk * 512; s < (blk+1)*512; s++ {
+			mags = append(mags, time.Duration(s)*time.Second)
+		}
+	case 1: // whole minutes up to 2^31 s, 128 blocks
+		const total = (1 << 31) / 60
+		blk := c.Pick(128)
+		per := total/128 + 1
+		for m := blk * per; m < (blk+1)*per && m <= total; m++ {
+			if !c.Thorough() {
+				near := false
+				for k := uint(0); k < 31; k++ {
+					if d := m - (1<<k)/60; d >= -32 && d < 32 {
+						near = true
+					}
+				}
+				if m%64 != 0 && !near {
+					continue
+				}
+			}
+			mags = append(mags, time.Duration(m)*time.Minute)
+		}
+	default: // logarithmic grid
+		k := uint(c.Pick(61))
+		for m := int64(16); m < 32; m++ {
+			mags = append(mags, time.Duration(m<<k>>4))
+		}
+	}
+	n := 0
+	for _, mag := range mags {
+		for _, extra := range []time.Duration{0, 1, 465, 499999999} {
+			c18CheckOffset(c, era, mag+extra)
+			c18CheckOffset(c, era, -(mag + extra))
+			n += 2
+		}
+	}
+	c.Ops(2 * n)
+	c.Cases(n - 1)
+	if c.Verbose() {
+		c.Notef("offset sweep kind %d: %d offsets from %v to %v", kind, n, mags[0], mags[len(mags)-1])
+	}
+	c.NonTrivial()
+	c.Outcome(fmt.Sprintf("kind=%d", kind))
+}
+
+func c18InstantSweep(c *mc.Ctx) {
+	if c.Bool() {
+		// capture time at every whole hour of the NTP era after 1970, 64 blocks
+		const hours = (0x7C558180) / 3600
+		blk := c.Pick(64)
+		per := hours/64 + 1
+		n := 0
+		for h := blk * per; h < (blk+1)*per && h <= hours; h++ {
+			for _, sub := range []int64{0, 1, 999999999} {
+				t := time.Unix(int64(h)*3600, sub).UTC()
+				if t.Unix() >= 0x7C558180 {
+					continue
+				}
+				got := rtp.NewAbsCaptureTimeExtension(t).CaptureTime()
+				if absDur(got.Sub(t)) > time.Nanosecond {
+					c.Failf("capture-time", "instant %s (unix ns %d): CaptureTime %s differs by %v", t.Format(time.RFC3339Nano), t.UnixNano(), got.UTC().Format(time.RFC3339Nano), got.Sub(t))
+				}
+				n++
+			}
+		}
+		c.Ops(2 * n)
+		c.Cases(n - 1)
+		c.NonTrivial()
+		c.Outcome("capture-hours")
+		return
+	}
+	era := mc.From(c, c18Eras)
+	sec := c.Pick(128)
+	n := 0
+	for _, sub := range []time.Duration{0, 500 * time.Millisecond} {
+		send := era.Add(time.Duration(sec)*time.Second + sub)
+		if send.Unix() >= 0x7C558180-64 {
+			continue
+		}
+		ext := rtp.NewAbsSendTimeExtension(send)
+		for d := time.Duration(0); d < 64*time.Second-c18Q; d += 125 * time.Millisecond {
+			got := ext.Estimate(send.Add(d))
+			if diff := send.Sub(got); diff < 0 || diff > c18Q+1 {
+				c.Failf("estimate", "send %s (unix ns %d), delay %v: Estimate returned %s = send %+d ns (allowed: [-%d, 0])",
+					send.Format(time.RFC3339Nano), send.UnixNano(), d, got.UTC().Format(time.RFC3339Nano), -int64(diff), c18Q+1)
+			}
+			n++
+		}
+	}
+	c.Ops(n)
+	if n > 0 {
+		c.Cases(n - 1)
+		c.NonTrivial()
+	}
+	c.Outcome("estimate-delays")
 }
